@@ -261,7 +261,14 @@ func execRun(in runIn, ev func(k string, f any)) []core.Violation {
 		secBefore := len(ops.sec)
 		faultsBefore := ops.faultsServed
 		ops.mu.Unlock()
-		lines, err := cl.Lookup(path, vers)
+		lines, err, pan := safeLookup(cl, path, vers)
+		if pan != nil {
+			sig := "c01:panic"
+			if in.Forked {
+				sig = "c13:panic"
+			}
+			vs = append(vs, core.Violation{Sig: sig, What: fmt.Sprintf("Lookup(%s,%s) panics: %v", path, vers, pan)})
+		}
 		cls := "other"
 		tlTrue := ""
 		if err == nil {
